@@ -210,6 +210,18 @@ fn expected(text: &str) -> (Vec<(u64, String, u64, u64, u64)>, Vec<(u32, u32, u3
 }
 
 fn document(rng: &mut Rng) -> String {
+    if rng.chance(1, 25) {
+        // a long listing with a message on (almost) every line: nothing may be dropped or capped
+        let n = 60 + rng.usize(400);
+        return (0..n).map(|k| match rng.below(6) {
+            0 => format!("PRINT {}", k),
+            1 => format!("{} X = \"s{}\"", k + 1, k),
+            2 => format!("{} PRINT %", k + 1),
+            3 => format!("{} V{} = 1", k + 1, k % 300),
+            4 => format!("{} PRINT \"é\" + {}", k + 1, k),
+            _ => format!("{} PRINT U{}", k + 1, k % 300),
+        }).collect::<Vec<_>>().join("\n");
+    }
     match rng.below(10) {
         0..=2 => {
             // C05 shapes
@@ -257,11 +269,49 @@ fn document(rng: &mut Rng) -> String {
 }
 
 struct Stats {
+    late_publishes: u64,
+    max_diags: u64,
+    bursts: u64,
+    burst_notifications: u64,
     docs: u64,
     diags: u64,
     tokens: u64,
     non_ascii_docs: u64,
     token_requests: u64,
+}
+
+
+/// Check one publishDiagnostics message against the text it must describe.
+fn check_publish(diag: &Value, text: &str, doc_json: &Value, stats: &mut Stats) -> Result<usize, (String, String, Value)> {
+    let doc_json = doc_json.clone();
+    stats.docs += 1;
+    let lines: Vec<&str> = text.split('\n').collect();
+    let (want_diags, _) = expected(text);
+    let mut got: Vec<(u64, String, u64, u64, u64)> = vec![];
+    for d in diag.pointer("/params/diagnostics").and_then(|x| x.as_array()).cloned().unwrap_or_default() {
+        let sl = d.pointer("/range/start/line").and_then(|x| x.as_u64()).unwrap_or(u64::MAX);
+        let sc = d.pointer("/range/start/character").and_then(|x| x.as_u64()).unwrap_or(u64::MAX);
+        let el = d.pointer("/range/end/line").and_then(|x| x.as_u64()).unwrap_or(u64::MAX);
+        let ec = d.pointer("/range/end/character").and_then(|x| x.as_u64()).unwrap_or(u64::MAX);
+        let sev = d.get("severity").and_then(|x| x.as_u64()).unwrap_or(0);
+        let msg = d.get("message").and_then(|x| x.as_str()).unwrap_or("").to_string();
+        if sl != el || (sl as usize) >= lines.len() {
+            return Err(("diag-line".into(), format!("diagnostic {:?} on line {}..{} of a {}-line document", msg, sl, el, lines.len()), doc_json));
+        }
+        let ll = utf16_len(lines[sl as usize]) as u64;
+        if sc > ec || ec > ll {
+            return Err(("diag-columns".into(), format!("diagnostic {:?} spans columns {}..{} on line {} which has {} UTF-16 units", msg, sc, ec, sl, ll), doc_json));
+        }
+        got.push((sev, msg, sl, sc, ec));
+        stats.diags += 1;
+    }
+    got.sort();
+    if got != want_diags {
+        let shown = |v: &Vec<(u64, String, u64, u64, u64)>| if v.len() > 12 { format!("{} diagnostics, first {:?}", v.len(), &v[..3]) } else { format!("{:?}", v) };
+        return Err(("diag-set".into(), format!("server diagnostics ({}) differ from the analyzer's messages ({})", shown(&got), shown(&want_diags)), doc_json));
+    }
+    stats.max_diags = stats.max_diags.max(got.len() as u64);
+    Ok(got.len())
 }
 
 /// Err((signature, explanation, document))
@@ -289,6 +339,80 @@ fn session(rng: &mut Rng, stats: &mut Stats, nontrivial: &mut Vec<u64>) -> Resul
     let base_prog = prog::generate(rng, &GenOpts { inputs: true, ..GenOpts::default() }).prog.text();
     let mut typed = 0usize;
     for k in 0..n_msgs {
+        // a burst: several notifications written back to back (an editor saving all files, a fast typist),
+        // followed by a request that acts as a barrier. Every notification must have been answered.
+        if !keystroke && rng.chance(1, 5) {
+            let n_burst = 2 + rng.usize(4);
+            let mut sent: Vec<(&str, String, Value)> = vec![];
+            for j in 0..n_burst {
+                let u = rng.usize(n_uris);
+                let uri = uris[u];
+                let text = if rng.chance(1, 3) { document(rng) } else { format!("10 PRINT \"burst {} {}\" + {}", k, j, rng.s(&["1", "\"x\"", "é", "Q"])) };
+                let doc_json = json!({"uri": uri, "text": text.split('\n').collect::<Vec<_>>(), "message_index": k, "burst_index": j, "burst_len": n_burst});
+                if latest[u].is_none() {
+                    srv.notify("textDocument/didOpen", json!({"textDocument": {"uri": uri, "languageId": "basic", "version": 1, "text": text}}))
+                } else {
+                    srv.notify("textDocument/didChange", json!({"textDocument": {"uri": uri, "version": 1000 * (k + 2) + j}, "contentChanges": [{"text": text}]}))
+                }
+                .map_err(|e| ("server-gone".to_string(), format!("server stopped reading in a burst at document #{}: {}", k, e), doc_json.clone()))?;
+                latest[u] = Some(text.clone());
+                sent.push((uri, text, doc_json));
+            }
+            let barrier_uri = sent.last().unwrap().0;
+            let id = srv.request("textDocument/semanticTokens/full", json!({"textDocument": {"uri": barrier_uri}})).map_err(inc)?;
+            let mut publishes: Vec<Value> = vec![];
+            let is_publish = |v: &Value| v.get("method").and_then(|m| m.as_str()) == Some("textDocument/publishDiagnostics");
+            loop {
+                match srv.rx.recv_timeout(WAIT) {
+                    Ok(v) => {
+                        if is_publish(&v) {
+                            publishes.push(v);
+                        } else if v.get("id").and_then(|x| x.as_u64()) == Some(id) {
+                            break;
+                        }
+                    }
+                    Err(_) => {
+                        return match srv.child.try_wait() {
+                            Ok(Some(st)) => Err(("server-died".into(), format!("the server died in a burst of {} notifications ({:?})", n_burst, st), sent.last().unwrap().2.clone())),
+                            _ => Err(inc("no response to the barrier request after a burst while the server is alive".into())),
+                        };
+                    }
+                }
+            }
+            // the barrier has been answered, so every earlier message has been taken off the wire; a server that
+            // answers from another thread gets a grace period before a missing answer counts
+            let grace = std::time::Instant::now() + Duration::from_secs(3);
+            while publishes.len() < n_burst {
+                let left = grace.saturating_duration_since(std::time::Instant::now());
+                if left.is_zero() {
+                    break;
+                }
+                match srv.rx.recv_timeout(left) {
+                    Ok(v) if is_publish(&v) => {
+                        publishes.push(v);
+                        stats.late_publishes += 1;
+                    }
+                    Ok(_) => {}
+                    Err(_) => break,
+                }
+            }
+            if publishes.len() != n_burst {
+                let got_uris: Vec<_> = publishes.iter().map(|p| p.pointer("/params/uri").and_then(|x| x.as_str()).unwrap_or("?").to_string()).collect();
+                let sent_uris: Vec<_> = sent.iter().map(|s| s.0).collect();
+                return Err(("notification-not-answered".into(),
+                    format!("{} notifications were sent back to back for {:?}, a later request has been answered, but only {} publishDiagnostics arrived (for {:?})", n_burst, sent_uris, publishes.len(), got_uris),
+                    json!({"burst": sent.iter().map(|s| s.2.clone()).collect::<Vec<_>>()})));
+            }
+            for (p, (uri, text, doc_json)) in publishes.iter().zip(sent.iter()) {
+                if p.pointer("/params/uri").and_then(|x| x.as_str()) != Some(*uri) {
+                    return Err(("burst-order".into(), format!("answer for {:?} where the answer for {:?} was due", p.pointer("/params/uri"), uri), doc_json.clone()));
+                }
+                check_publish(p, text, doc_json, stats)?;
+            }
+            stats.bursts += 1;
+            stats.burst_notifications += n_burst as u64;
+            continue;
+        }
         let u = rng.usize(n_uris);
         let uri = uris[u];
         let text = if keystroke {
@@ -318,36 +442,15 @@ fn session(rng: &mut Rng, stats: &mut Stats, nontrivial: &mut Vec<u64>) -> Resul
             Err(Wait::Died(st)) => return Err(("server-died".into(), format!("the server died on a document ({})", st), doc_json)),
             Err(Wait::Timeout) => return Err(inc(format!("no diagnostics within {:?} while the server is alive", WAIT))),
         };
-        stats.docs += 1;
+        let n_got = check_publish(&diag, &text, &doc_json, stats)?;
         let lines: Vec<&str> = text.split('\n').collect();
-        let (want_diags, want_tokens) = expected(&text);
-        let mut got: Vec<(u64, String, u64, u64, u64)> = vec![];
-        for d in diag.pointer("/params/diagnostics").and_then(|x| x.as_array()).cloned().unwrap_or_default() {
-            let sl = d.pointer("/range/start/line").and_then(|x| x.as_u64()).unwrap_or(u64::MAX);
-            let sc = d.pointer("/range/start/character").and_then(|x| x.as_u64()).unwrap_or(u64::MAX);
-            let el = d.pointer("/range/end/line").and_then(|x| x.as_u64()).unwrap_or(u64::MAX);
-            let ec = d.pointer("/range/end/character").and_then(|x| x.as_u64()).unwrap_or(u64::MAX);
-            let sev = d.get("severity").and_then(|x| x.as_u64()).unwrap_or(0);
-            let msg = d.get("message").and_then(|x| x.as_str()).unwrap_or("").to_string();
-            if sl != el || (sl as usize) >= lines.len() {
-                return Err(("diag-line".into(), format!("diagnostic {:?} on line {}..{} of a {}-line document", msg, sl, el, lines.len()), doc_json));
-            }
-            let ll = utf16_len(lines[sl as usize]) as u64;
-            if sc > ec || ec > ll {
-                return Err(("diag-columns".into(), format!("diagnostic {:?} spans columns {}..{} on line {} which has {} UTF-16 units", msg, sc, ec, sl, ll), doc_json));
-            }
-            got.push((sev, msg, sl, sc, ec));
-            stats.diags += 1;
-        }
-        got.sort();
-        if got != want_diags {
-            return Err(("diag-set".into(), format!("server diagnostics {:?} differ from the analyzer's messages {:?}", got, want_diags), doc_json));
-        }
+        let (_, want_tokens) = expected(&text);
+        let got_nonempty = n_got > 0;
         let non_ascii = text.bytes().any(|b| b >= 0x80);
         if non_ascii {
             stats.non_ascii_docs += 1;
         }
-        if !got.is_empty() && non_ascii {
+        if got_nonempty && non_ascii {
             nontrivial.push(hash_str(&text));
         }
         // semantic tokens for some documents (always for the latest text of that uri)
@@ -435,7 +538,7 @@ fn session(rng: &mut Rng, stats: &mut Stats, nontrivial: &mut Vec<u64>) -> Resul
 
 fn run_case(ctx: &Ctx, index: u64, rep: &mut Report) {
     let mut rng = ctx.rng(index);
-    let mut stats = Stats { docs: 0, diags: 0, tokens: 0, non_ascii_docs: 0, token_requests: 0 };
+    let mut stats = Stats { late_publishes: 0, max_diags: 0, bursts: 0, burst_notifications: 0, docs: 0, diags: 0, tokens: 0, non_ascii_docs: 0, token_requests: 0 };
     let mut nontrivial = vec![];
     let r = session(&mut rng, &mut stats, &mut nontrivial);
     rep.add("documents", stats.docs);
@@ -443,6 +546,10 @@ fn run_case(ctx: &Ctx, index: u64, rep: &mut Report) {
     rep.add("semantic_tokens_checked", stats.tokens);
     rep.add("semantic_token_requests", stats.token_requests);
     rep.add("non_ascii_documents", stats.non_ascii_docs);
+    rep.add("bursts", stats.bursts);
+    rep.add("burst_notifications", stats.burst_notifications);
+    rep.add("tolerated.publish_after_barrier", stats.late_publishes);
+    rep.max("max_diagnostics_one_document", stats.max_diags);
     rep.evaluations += stats.docs.saturating_sub(1);
     for h in nontrivial {
         rep.nontrivial(h);
@@ -464,7 +571,7 @@ fn run_case(ctx: &Ctx, index: u64, rep: &mut Report) {
 
 fn finalize(_tier: Tier, rep: &mut Report) -> Finalize {
     Finalize {
-        rule: "A case is one JSON-RPC session with the real abasic-lsp binary (initialize, initialized, 3-40 didOpen / didChange notifications over 1-3 URIs, semanticTokens/full after half of them, shutdown, exit). Documents: C05's line-kind shapes, non-ASCII strings / comments / DATA before later tokens, arbitrary text, token soup, generated programs (LF or CRLF), deep nesting, empty documents, and keystroke-by-keystroke prefixes of a program. \
+        rule: "A case is one JSON-RPC session with the real abasic-lsp binary (initialize, initialized, 3-40 didOpen / didChange notifications over 1-3 URIs, semanticTokens/full after half of them, shutdown, exit); a fifth of the steps are bursts of 2-5 notifications written back to back and followed by a request as a barrier: once the barrier is answered every notification of the burst must have been answered, in order, each with the diagnostics of its own text (a late answer within 3 s is tolerated and tallied). Documents: C05's line-kind shapes, non-ASCII strings / comments / DATA before later tokens, arbitrary text, token soup, generated programs (LF or CRLF), deep nesting, empty documents, listings of 60-460 lines with a message on almost every line, and keystroke-by-keystroke prefixes of a program. \
                Checked per document: a publishDiagnostics for that URI arrives and the child stays alive; every range lies on an existing line within its UTF-16 length; the multiset of (severity, message, line, start, end) equals the in-process analyzer's messages converted by an independent byte->UTF-16 model; decoded semantic tokens are ordered, non-overlapping, within their line, typed within the advertised legend, and equal the analyzer's token types; exit status 0 after shutdown/exit. \
                Evaluations count documents. Non-trivial: a document with >= 1 diagnostic and a non-ASCII character. Distinct by hash of the document text.".into(),
         floors: vec![
@@ -473,6 +580,8 @@ fn finalize(_tier: Tier, rep: &mut Report) -> Finalize {
             ("diagnostics_checked".into(), 10_000),
             ("semantic_tokens_checked".into(), 50_000),
             ("non_ascii_documents".into(), 1_000),
+            ("bursts".into(), 500),
+            ("max_diagnostics_one_document".into(), 150),
             ("distinct_nontrivial".into(), 500),
         ],
         assumptions: vec![
